@@ -15,10 +15,19 @@ def dt0(vf, initial_values: Sequence, /, scale=0.01, nugget=1e-5, **vf_kwargs):
     u0, _ = tree.ravel_pytree(u0)
     f0, _ = tree.ravel_pytree(f0)
 
-    norm_y0 = linalg.vector_norm(u0)
-    norm_dy0 = linalg.vector_norm(f0) + nugget
+    # The nugget keeps the proposal strictly positive for u0 = 0
+    # (and the scaled norm keeps it finite for badly scaled states).
+    norm_y0 = _vector_norm_scaled(u0) + nugget
+    norm_dy0 = _vector_norm_scaled(f0) + nugget
 
     return scale * norm_y0 / norm_dy0
+
+
+def _vector_norm_scaled(x, /):
+    """Evaluate the 2-norm without over- or underflow in the squares."""
+    largest = np.amax(np.abs(x))
+    safe = np.where(largest > 0.0, largest, 1.0)
+    return largest * linalg.vector_norm(x / safe)
 
 
 def dt0_adaptive(
@@ -46,8 +55,9 @@ def dt0_adaptive(
     y0, unravel = tree.ravel_pytree(y0)
     f0, _ = tree.ravel_pytree(f0)
 
+    # All three norms are tolerance-scaled (Hairer et al., Sec. II.4)
     scale = atol + np.abs(y0) * rtol
-    d0, d1 = linalg.vector_norm(y0), linalg.vector_norm(f0)
+    d0, d1 = linalg.vector_norm(y0 / scale), linalg.vector_norm(f0 / scale)
 
     dt0 = np.where((d0 < 1e-5) | (d1 < 1e-5), 1e-6, 0.01 * d0 / d1)
 
